@@ -177,6 +177,16 @@ theorem estimate_ge_aux (env : Env) (rd : Reader) (hdocs : rd.docs = env.index) 
     simp [hP, this]
   | .phrase f ws slop bo, n, h => by
     simp only [estimate] at h
+    by_cases hw0 : ws.isEmpty = true
+    · simp only [hw0, if_true, Option.some.injEq] at h
+      subst h
+      have hnil : ws = [] := by simpa using hw0
+      have : cnt env.index (sat env (.phrase f ws slop bo)) = 0 := by
+        simp only [cnt, List.length_eq_zero_iff, List.filter_eq_nil_iff, sat, hnil, phraseMatch]
+        intro d _ hc
+        simp at hc
+      omega
+    simp only [hw0, Bool.false_eq_true, if_false] at h
     apply le_minList _ h
     intro v hv
     obtain ⟨w, hw, rfl⟩ := List.mem_map.mp hv
@@ -194,8 +204,17 @@ theorem estimate_ge_aux (env : Env) (rd : Reader) (hdocs : rd.docs = env.index) 
         have hm := phraseMatch_mem _ _ _ hc w hw
         exact hf (hrd d hd f w hm).2
       omega
-  | .comp .and qs _, n, h => by
+  | .comp .and qs bst, n, h => by
     simp only [estimate] at h
+    by_cases hq0 : qs.isEmpty = true
+    · simp only [hq0, if_true, Option.some.injEq] at h
+      subst h
+      have : cnt env.index (sat env (.comp .and qs bst)) = 0 := by
+        simp only [cnt, List.length_eq_zero_iff, List.filter_eq_nil_iff, sat, hq0]
+        intro d _ hc
+        simp at hc
+      omega
+    simp only [hq0, Bool.false_eq_true, if_false] at h
     cases hes : estimateList env.multi env.bracket rd qs with
     | none => simp [hes] at h
     | some es =>
@@ -229,8 +248,17 @@ theorem estimate_ge_aux (env : Env) (rd : Reader) (hdocs : rd.docs = env.index) 
       refine ⟨?_, by rw [Reader.docCount, hdocs]; exact cnt_le_length _ _⟩
       simp only [sat]
       exact estimateList_sum_aux env rd hdocs hrd qs es hes
-  | .seq _ qs _ _ _, n, h => by
+  | .seq sc qs ssl so sb, n, h => by
     simp only [estimate] at h
+    by_cases hq0 : qs.isEmpty = true
+    · simp only [hq0, if_true, Option.some.injEq] at h
+      subst h
+      have : cnt env.index (sat env (.seq sc qs ssl so sb)) = 0 := by
+        simp only [cnt, List.length_eq_zero_iff, List.filter_eq_nil_iff, sat, hq0]
+        intro d _ hc
+        simp at hc
+      omega
+    simp only [hq0, Bool.false_eq_true, if_false] at h
     cases hes : estimateList env.multi env.bracket rd qs with
     | none => simp [hes] at h
     | some es =>
